@@ -4,51 +4,277 @@ package main
 
 import (
 	"fmt"
+	"reflect"
 	"time"
+	"unsafe"
 
 	"github.com/NethermindEth/juno/consensus/propeller/timecache"
 	"verif/harness/lib"
 )
 
-// The processor's finalized cache (timecache.TimeCache) is a set in the model: checked here to
-// behave as one while nothing expires (also beyond its initial size), and to forget after expiry.
+// The processor's finalized cache (timecache.TimeCache): a map plus a ring buffer that wraps around
+// and grows. The model (ModelCache.lean) transcribes it with the clock as a parameter and proves it
+// is a set with a time to live; here the real cache is run against the model and against the
+// specification "Get = some Add of the key has not expired".
+//
+// The clock: the real code reads time.Now(). The harness keeps a LOGICAL clock and, before every
+// operation, rewrites every stored expiry (in the map and in the ring, by reflection) to "one hour
+// from now" or "one hour ago" according to whether the entry's logical expiry is after the logical
+// time of the operation — every comparison the code makes (`now.Before(expiry)`, `expiry.After(now)`)
+// then has the outcome the logical clock dictates, with an hour of margin on either side: nothing
+// depends on how fast the run is.
+
+type tcProbe struct {
+	values     reflect.Value // map[uint64]time.Time
+	timestamps reflect.Value // []timedValue[uint64]
+	start, end reflect.Value
+	size       reflect.Value
+}
+
+func newTCProbe(tc *timecache.TimeCache[uint64]) (p *tcProbe, err error) {
+	defer func() {
+		if r := recover(); r != nil {
+			err = fmt.Errorf("%v", r)
+		}
+	}()
+	v := reflect.ValueOf(tc).Elem()
+	field := func(name string) reflect.Value {
+		f := v.FieldByName(name)
+		if !f.IsValid() {
+			panic("TimeCache has no field " + name)
+		}
+		return reflect.NewAt(f.Type(), unsafe.Pointer(f.UnsafeAddr())).Elem()
+	}
+	p = &tcProbe{values: field("values"), timestamps: field("timestamps"), start: field("start"), end: field("end"), size: field("size")}
+	if p.values.Kind() != reflect.Map || p.timestamps.Kind() != reflect.Slice {
+		return nil, fmt.Errorf("unexpected layout of TimeCache")
+	}
+	return p, nil
+}
+
+// retime: every stored expiry becomes now±1h according to the logical clock.
+func (p *tcProbe) retime(expiry map[uint64]int, now int) (err error) {
+	defer func() {
+		if r := recover(); r != nil {
+			err = fmt.Errorf("%v", r)
+		}
+	}()
+	base := time.Now()
+	realOf := func(key uint64) (time.Time, bool) {
+		e, ok := expiry[key]
+		if !ok {
+			return time.Time{}, false
+		}
+		if e > now {
+			return base.Add(time.Hour), true
+		}
+		return base.Add(-time.Hour), true
+	}
+	it := p.values.MapRange()
+	var keys []reflect.Value
+	for it.Next() {
+		keys = append(keys, it.Key())
+	}
+	for _, k := range keys {
+		if rt, ok := realOf(k.Uint()); ok {
+			p.values.SetMapIndex(k, reflect.ValueOf(rt))
+		}
+	}
+	for i := 0; i < p.timestamps.Len(); i++ {
+		el := p.timestamps.Index(i)
+		fv, fe := el.FieldByName("value"), el.FieldByName("expiry")
+		if rt, ok := realOf(fv.Uint()); ok {
+			reflect.NewAt(fe.Type(), unsafe.Pointer(fe.UnsafeAddr())).Elem().Set(reflect.ValueOf(rt))
+		}
+	}
+	return nil
+}
+
+func (p *tcProbe) state() string {
+	return fmt.Sprintf("%d %d %d %d", p.start.Int(), p.end.Int(), p.size.Int(), p.values.Len())
+}
+
+type tcOp struct {
+	Get bool   `json:"get,omitempty"`
+	T   int    `json:"t"`
+	K   uint64 `json:"k"`
+}
+
+// tcRun: one run of the real cache against model and specification.
+func tcRun(h *hctx, size, ttl int, ops []tcOp, what string) {
+	rp := map[string]any{"kind": "timecache-run", "size": size, "ttl": ttl, "ops": ops, "what": what}
+	h.res.Case(fmt.Sprintf("timecache/%s/%d/%d/%d", what, size, ttl, len(ops)), true)
+	tc := timecache.New[uint64](size, time.Hour)
+	probe, err := newTCProbe(tc)
+	if err != nil {
+		h.res.Fatalf("timecache probe: %v", err)
+		return
+	}
+	h.check("timecache-new", rp, fmt.Sprintf("tcnew %d %d", size, ttl), "ok", false)
+	expiry := map[uint64]int{} // logical expiry of the latest Add of each key
+	lastT := -1
+	for i, op := range ops {
+		// (entries added since the last retime carry "now + 1 h": right as long as the logical clock
+		// has not moved — every logical ttl is positive)
+		if op.T != lastT {
+			if err := probe.retime(expiry, op.T); err != nil {
+				h.res.Fatalf("timecache probe: %v", err)
+				return
+			}
+			lastT = op.T
+		}
+		k := op.K
+		if op.Get {
+			var got bool
+			perr, panicked, _ := lib.Try(func() error { got = tc.Get(&k); return nil })
+			if panicked {
+				h.violate("timecache-panics", fmt.Sprintf("TimeCache.Get panics at operation %d of a run (%s, size %d): %v", i, what, size, perr), rp)
+				return
+			}
+			e, known := expiry[k]
+			want := known && e > op.T
+			switch {
+			case !known:
+				h.res.Hit("timecache:get-unknown")
+			case want:
+				h.res.Hit("timecache:get-live")
+			default:
+				h.res.Hit("timecache:get-expired")
+			}
+			if got != want {
+				sig := "timecache-forgets-a-live-key"
+				if got {
+					sig = "timecache-returns-an-expired-or-unknown-key"
+				}
+				h.violate(sig, fmt.Sprintf("operation %d of a run (%s, New(%d), ttl %d): Get(%d) at time %d = %v; the key was added with expiry %d (known: %v) — "+
+					"the processor's finalized cache is not the set the property's 'built once / broadcast once' rests on", i, what, size, ttl, k, op.T, got, e, known), rp)
+				return
+			}
+			h.check("timecache-get", map[string]any{"what": what, "size": size, "op": i}, fmt.Sprintf("tcget %d %d", op.T, k), fmt.Sprintf("%v %s", got, probe.state()), false)
+			continue
+		}
+		before := probe.size.Int()
+		wrappedBefore := probe.start.Int() > probe.end.Int()
+		perr, panicked, _ := lib.Try(func() error { tc.Add(&k); return nil })
+		if panicked {
+			h.violate("timecache-panics", fmt.Sprintf("TimeCache.Add panics at operation %d of a run (%s, size %d): %v", i, what, size, perr), rp)
+			return
+		}
+		expiry[k] = op.T + ttl
+		if probe.size.Int() != before {
+			h.res.Hit("timecache:regrowth")
+			if before > 1024 {
+				h.res.Hit("timecache:regrowth-by-20%")
+			}
+		}
+		if wrappedBefore {
+			h.res.Hit("timecache:add-while-wrapped")
+		}
+		st := probe.state()
+		h.later(fmt.Sprintf("tcadd %d %d", op.T, k), func(ans string) {
+			f := splitFields(ans)
+			if len(f) != 5 {
+				h.res.Fatalf("driver answered %.60q to tcadd", ans)
+				return
+			}
+			switch f[4] {
+			case "c":
+				h.res.Hit("timecache:model-regrowth-contiguous-branch")
+			case "w":
+				h.res.Hit("timecache:model-regrowth-wrapped-branch")
+			}
+			h.compare("timecache-add", map[string]any{"what": what, "size": size, "op": i}, f[0]+" "+f[1]+" "+f[2]+" "+f[3], st)
+		})
+	}
+}
+
+// genTCOps: a well-formed run (the clock does not go backwards; a key is added only when it is not
+// live). `burst`: probability (in %) that the clock stands still between two operations.
+func genTCOps(r *lib.RNG, n, ttl, burst int) []tcOp {
+	var ops []tcOp
+	now := 0
+	expiry := map[uint64]int{}
+	var known []uint64
+	next := uint64(1)
+	for len(ops) < n {
+		switch {
+		case r.Intn(100) < burst:
+		case r.Chance(1, 12):
+			now += ttl + r.Intn(3) // everything expires
+		default:
+			now += r.Intn(max(1, ttl/3) + 1)
+		}
+		if r.Chance(2, 5) && len(known) > 0 {
+			k := lib.Pick(r, known)
+			if r.Chance(1, 8) {
+				k = next + 1000 // never added
+			}
+			ops = append(ops, tcOp{Get: true, T: now, K: k})
+			continue
+		}
+		k := next
+		if r.Chance(1, 4) && len(known) > 0 { // add an expired key again
+			c := lib.Pick(r, known)
+			if expiry[c] <= now {
+				k = c
+			}
+		}
+		if k == next {
+			next++
+			known = append(known, k)
+		}
+		expiry[k] = now + ttl
+		ops = append(ops, tcOp{T: now, K: k})
+	}
+	return ops
+}
+
 func secTimecache(h *hctx, r *lib.RNG) {
-	rp := map[string]any{"kind": "timecache"}
-	h.res.Case("timecache", true)
-	err, panicked, _ := lib.Try(func() error {
-		tc := timecache.New[int](4, time.Hour)
-		in := map[int]bool{}
-		for i := 0; i < 200; i++ {
-			k := r.Intn(300)
-			if !in[k] { // Add of a present key is documented as undefined: the processor never does it
-				tc.Add(&k)
-				in[k] = true
-			}
-			q := r.Intn(300)
-			if tc.Get(&q) != in[q] {
-				return fmt.Errorf("after %d adds Get(%d) = %v, want %v", i+1, q, !in[q], in[q])
+	// small initial sizes: the ring wraps and grows all the time
+	for _, size := range []int{1, 2, 3, 4, 5, 8} {
+		for _, ttl := range []int{1, 3, 10, 40} {
+			for rep := 0; rep < h.f.Scale(2, 12); rep++ {
+				tcRun(h, size, ttl, genTCOps(r, h.f.Scale(120, 400), ttl, lib.Pick(r, []int{0, 30, 70, 90})), "random")
 			}
 		}
-		for k := 0; k < 300; k++ {
-			if tc.Get(&k) != in[k] {
-				return fmt.Errorf("final Get(%d) = %v, want %v", k, !in[k], in[k])
-			}
+	}
+	// no expiry at all: pure growth (the contiguous branch of regrowth)
+	tcRun(h, 1, 1_000_000, genTCOps(r, 300, 1_000_000, 50), "no-expiry")
+	// the processor's cache (2048): fill, expire the older half, keep adding until the ring has
+	// wrapped and must grow while wrapped, past the 1024-slot threshold of the 20 % growth
+	for _, size := range []int{1022, 1023, 1024, 1025, 2048} {
+		var ops []tcOp
+		k := uint64(1)
+		half := size / 2
+		for i := 0; i < half; i++ { // older half at time 0
+			ops = append(ops, tcOp{T: 0, K: k})
+			k++
 		}
-		return nil
-	})
-	if panicked || err != nil {
-		h.violate("timecache-not-a-set-before-expiry", fmt.Sprintf("panic=%v %v", panicked, err), rp)
+		for i := 0; i < size-half-1; i++ { // younger half at time 5: the ring is one short of full
+			ops = append(ops, tcOp{T: 5, K: k})
+			k++
+		}
+		ops = append(ops, tcOp{Get: true, T: 9, K: 1}, tcOp{Get: true, T: 10, K: 1}, tcOp{Get: true, T: 10, K: uint64(half + 1)})
+		for i := 0; i < half+40; i++ { // time 10 (ttl 10): the older half has expired; the ring wraps, fills up, grows
+			ops = append(ops, tcOp{T: 10, K: k})
+			k++
+		}
+		for _, q := range []uint64{1, uint64(half), uint64(half + 1), uint64(size - 1), uint64(size), k - 1, k} {
+			ops = append(ops, tcOp{Get: true, T: 12, K: q})
+		}
+		ops = append(ops, tcOp{Get: true, T: 15, K: uint64(half + 1)}, tcOp{Get: true, T: 19, K: k - 1}, tcOp{Get: true, T: 20, K: k - 1})
+		tcRun(h, size, 10, ops, "fill-expire-half-wrap-grow")
 	}
-	h.res.Hit("timecache:set-semantics")
-	// expiry, with wide margins (50 ms vs 400 ms)
-	tc := timecache.New[int](4, 50*time.Millisecond)
-	k := 7
-	tc.Add(&k)
-	before := tc.Get(&k)
-	time.Sleep(400 * time.Millisecond)
-	after := tc.Get(&k)
-	if !before || after {
-		h.violate("timecache-expiry", fmt.Sprintf("Get right after Add = %v, Get 400 ms after a 50 ms expiry = %v", before, after), rp)
+}
+
+func tcReplay(h *hctx, rp map[string]any) {
+	var ops []tcOp
+	if l, ok := rp["ops"].([]any); ok {
+		for _, x := range l {
+			m, _ := x.(map[string]any)
+			g, _ := m["get"].(bool)
+			ops = append(ops, tcOp{Get: g, T: num(m["t"]), K: uint64(num(m["k"]))})
+		}
 	}
-	h.res.Hit("timecache:expiry")
+	tcRun(h, num(rp["size"]), num(rp["ttl"]), ops, str(rp["what"]))
 }
